@@ -352,6 +352,9 @@ static void run_cfg(const char *prop_unused)
   snprintf(key, sizeof key, "h_stop|%s|stop=%s|deadline=%d|child=%s|state=%s", C.via == VIA_DESTROY ? "destroy" : "stop",
            hx_stop_str(sa, sb, sizeof sb), C.deadline, cb_names[C.cb], C.prefail ? "running-after-failed-start" : is_names[C.is]);
   hx_desc("%s", key);
+  /* violation keys name the call path, the child behaviour and the handle state, not the triple: one defect, one key */
+  snprintf(key, sizeof key, "h_stop|%s|child=%s|state=%s", C.via == VIA_DESTROY ? "destroy" : "stop", cb_names[C.cb],
+           C.prefail ? "running-after-failed-start" : is_names[C.is]);
   hx_begin();
   vk_set_hang_hook(stop_hang);
   evaluated = 0;
